@@ -27,8 +27,8 @@ static void harness_init() {}
 static const int  CORES[8] = {0, 1, 2, 3, 4, 5, 6, 8};
 static const char *CORE_NAME[9] = {"MAME-YM2612", "Nuked-YM3438", "GENS", "YMFM-OPN2", "NP2-OPNA", "MAME-YM2608", "YMFM-OPNA", "VGM", "Nuked-YM2612"};
 static const long RATES[9] = {8000, 11025, 22050, 44100, 48000, 53267, 55466, 96000, 192000};
-enum Scen { S_NOTEOFF = 0, S_PANIC, S_RESET, S_CHORD, S_BURST, S_COUNT };
-static const char *SCEN_NAME[S_COUNT] = {"noteoff", "panic", "reset", "chord", "burst"};
+enum Scen { S_NOTEOFF = 0, S_PANIC, S_RESET, S_CHORD, S_BURST, S_COUNT, S_PROBE = S_COUNT };
+static const char *SCEN_NAME[S_COUNT + 1] = {"noteoff", "panic", "reset", "chord", "burst", "probe"};
 
 static const double FS1 = 327.0;          // 1 % of full scale
 static const double IDLE_MS = 50, PRIME_MS = 2, ONSET_MS = 10, SKIP_MS = 20, REL_MS = 150, SIL_MS = 300, WIN_MS = 20;
@@ -54,6 +54,12 @@ static Cell decode(Case &c)
     int lo = is_nuked(x.core) ? 48 : 24;
     int u = (int)c.rng.below(10);
     x.key = u == 0 ? lo : u == 1 ? 108 : c.rng.range(lo, 108);
+    if(g_w.stage == "voices")
+    {   // one measured note on a chip whose other voices have been, or are, in use: every core x output rate, native rate only
+        static const long vr[5] = {11025, 22050, 44100, 48000, 53267};
+        x.core = CORES[k % 8]; x.rate = vr[(k / 8) % 5]; x.pcm = 0; x.fam = (int)((k / 40) % 2); x.chips = 1 + (int)((k / 80) % 2); x.scen = S_PROBE;
+        x.key = c.rng.range(is_nuked(x.core) ? 48 : 36, 96);
+    }
     const char *f = getenv("VERIF_C20_FORCE");   // development aid: core,fam,rate,pcm,chips,scen,key
     if(f) { int a[7] = {x.core, x.fam, (int)x.rate, x.pcm, x.chips, x.scen, x.key}; sscanf(f, "%d,%d,%d,%d,%d,%d,%d", &a[0], &a[1], &a[2], &a[3], &a[4], &a[5], &a[6]);
             x.core = a[0]; x.fam = a[1]; x.rate = a[2]; x.pcm = a[3]; x.chips = a[4]; x.scen = a[5]; x.key = a[6]; }
@@ -590,6 +596,49 @@ static void scen_burst(Ctx &t)
     silence_clause(t, I.now(), "burst", vname[variant]);
 }
 
+// One note is measured like a single held note (pitch, onset, audible), but on a chip that is not fresh: earlier notes of the same key
+// have used (and released) the chip's voices, and other voices are held by notes of other octaves on a MIDI channel whose volume is
+// zero (silent per C11, but allocated, keyed and pitched like any note): the probe lands on whichever voice is left
+static void scen_probe(Ctx &t)
+{
+    Inst &I = t.I; const Cell &x = t.x; Rng &r = t.c.rng;
+    const int voices = 6 * x.chips;
+    const int lo = is_nuked(x.core) ? 48 : 30;
+    static const int pch[12] = {0, 1, 2, 3, 4, 5, 6, 7, 8, 10, 11, 13};     // melodic channels (12 carries the silent notes)
+    int nprime = r.chance(0.3) ? voices : r.range(0, voices), nsilent = r.chance(0.4) ? voices - 1 : r.range(0, voices - 1);
+    for(int i = 0; i < nprime; i++) API("opn2_rt_noteOn", opn2_rt_noteOn(I.dev, (OPN2_UInt8)pch[i % 12], (OPN2_UInt8)(r.chance(0.8) ? x.key : r.range(lo, 96)), 127));
+    if(nprime)
+    {
+        I.render(I.ms(30));
+        for(int ch = 0; ch < 16; ch++) API("opn2_rt_controllerChange", opn2_rt_controllerChange(I.dev, (OPN2_UInt8)ch, 123, 0));
+        size_t f_rel = I.now();
+        silence_clause(t, f_rel, "chord", "primed");
+    }
+    API("opn2_rt_controllerChange", opn2_rt_controllerChange(I.dev, 12, 7, 0));
+    std::set<int> sk;
+    for(int i = 0; i < nsilent; i++)
+    {
+        int k = r.range(lo, 100);
+        if(abs(k - x.key) < 6 || !sk.insert(k).second) continue;       // other octaves / F-numbers than the probe
+        int rc = 0; API("opn2_rt_noteOn", rc = opn2_rt_noteOn(I.dev, 12, (OPN2_UInt8)k, 127)); (void)rc;
+        if(r.chance(0.3)) I.render(I.ms(2));
+    }
+    int probe_ch = pch[r.below(12)];
+    size_t f_on = I.now();
+    int rc = 0;
+    API("opn2_rt_noteOn", rc = opn2_rt_noteOn(I.dev, (OPN2_UInt8)probe_ch, (OPN2_UInt8)x.key, 127));
+    t.cfg += vfmt(" probe: %d earlier notes released, %zu silent notes held on other voices, probe on MIDI channel %d", nprime, sk.size(), probe_ch);
+    if(rc != 1) { t.c.violation("oracle:C20:note-rejected:" + t.tag, vfmt("opn2_rt_noteOn returned %d with a free voice; %s", rc, t.cfg.c_str())); return; }
+    I.render(hold_frames(x, I.rate, x.key));
+    held_clauses(t, f_on, x.key);
+    count("notes_measured"); count("probe_notes_measured"); count("probe_silent_notes_held", (long long)sk.size());
+    cover(vfmt("probe|core%d|chips%d|primed%s|silent%zu", x.core, x.chips, nprime == 0 ? "0" : nprime == voices ? "all" : "some", sk.size()));
+    size_t f_end = I.now();
+    API("opn2_rt_noteOff", opn2_rt_noteOff(I.dev, (OPN2_UInt8)probe_ch, (OPN2_UInt8)x.key));
+    API("opn2_rt_controllerChange", opn2_rt_controllerChange(I.dev, 12, 123, 0));
+    silence_clause(t, f_end, "noteoff", "probe");
+}
+
 static void run_case(Case &c)
 {
     g_dbg = getenv("VERIF_C20_DEBUG") != NULL;
@@ -604,7 +653,8 @@ static void run_case(Case &c)
         DBG("  %s\n", t.cfg.c_str());
         if(idle_clause(t))
         {
-            if(x.scen <= S_RESET) scen_single(t);
+            if(x.scen == S_PROBE) scen_probe(t);
+            else if(x.scen <= S_RESET) scen_single(t);
             else if(x.scen == S_CHORD) scen_chord(t);
             else scen_burst(t);
             c.nontrivial = !c.inconclusive;
